@@ -11,8 +11,9 @@ ENCODER = transliteration of
     `metadata` method;
   go/libraries/doltcore/sqle/binlogreplication/binlog_row_serialization.go
     serializeRowToBinlogBytes (concatenation of the non-NULL cells + NULL bitmap).
-The encoder keeps dolt's behaviour where it is wrong (YEAR 0, the seconds carry of negative
-fractional TIME values, DECIMAL(p,p)): see Props/C40.lean for the refuting witnesses.
+The encoder keeps dolt's behaviour where it is wrong (the seconds carry of negative fractional
+TIME values, DECIMAL(p,p)): see Props/C40.lean for the refuting witnesses.  YEAR 0000 and the JSON
+object key length were repaired in /repo (e60c6b5, 22b8e06) and are modelled as repaired.
 
 DECODER = written from the MySQL binary-log row format description (log_event / my_time.cc
 `my_time_packed_from_binary`, `my_datetime_packed_from_binary`, `my_timestamp_from_binary`,
@@ -182,8 +183,9 @@ def intInRange (w : IntW) (signed : Bool) (v : Int) : Bool :=
 /-- `integerSerializer.serialize`. -/
 def encInt (w : IntW) (v : Int) : Bytes := leBytes w.bytes (twos 64 v)
 
-/-- `yearSerializer.serialize`: `[]byte{byte(intValue - 1900)}` on an int16. -/
-def encYear (v : Int) : Bytes := [byteOf (twos 16 (v - 1900))]
+/-- `yearSerializer.serialize`: `if intValue == 0 { return []byte{0} }` (YEAR 0000, repaired by
+/repo e60c6b5), otherwise `[]byte{byte(intValue - 1900)}` on an int16. -/
+def encYear (v : Int) : Bytes := if v = 0 then [0] else [byteOf (twos 16 (v - 1900))]
 
 /-- `dateSerializer.serialize`. -/
 def encDate (y m d : Nat) : Bytes :=
@@ -360,6 +362,35 @@ def encode (t : ColType) (c : Cell) : Except Err Bytes :=
   | .json, .bytes b => .ok (leBytes 4 (b.length % 2 ^ 32) ++ b)
   | .geometry, .bytes b => .ok (leBytes 4 (b.length % 2 ^ 32) ++ b)
   | _, _ => .error .mismatch
+
+/-! ## binary JSON: the key-entry section of an object (`encodeJsonObject`, first loop) -/
+
+/-- `appendForEncoding`: 2 (small) or 4 (large) little-endian bytes. -/
+def appendForEncoding (value : Nat) (large : Bool) : Bytes :=
+  if large then leBytes 4 (value % 2 ^ 32) else leBytes 2 (value % 2 ^ 32)
+
+/-- `calculateInitialObjectKeysOffset`. -/
+def initialObjectKeysOffset (n : Nat) (large : Bool) : Nat :=
+  if large then 4 + 4 + n * 6 + n * 5 else 2 + 2 + n * 4 + n * 3
+
+/-- one key entry: key offset, then the key length as `byte(len), byte(len>>8)` (the high byte was
+`byte(len<<8)` = 0 before /repo 22b8e06). -/
+def jsonKeyEntry (off len : Nat) (large : Bool) : Bytes :=
+  appendForEncoding off large ++ [byteOf len, byteOf (len >>> 8)]
+
+/-- the key-entries section for the (already sorted) keys, starting at offset `off`. -/
+def jsonKeyEntries (large : Bool) : Nat → List Bytes → Bytes
+  | _, [] => []
+  | off, k :: ks => jsonKeyEntry off k.length large ++ jsonKeyEntries large (off + k.length) ks
+
+/-- what a replica reads from a key entry (`readOffsetOrSize(data, pos, large)` then a 16-bit length). -/
+def readKeyEntry (large : Bool) (bs : Bytes) : Option ((Nat × Nat) × Bytes) :=
+  match readLE (if large then 4 else 2) bs with
+  | none => none
+  | some (off, r) =>
+    match readLE 2 r with
+    | none => none
+    | some (len, r2) => some ((off, len), r2)
 
 /-! ## NULL bitmap (`mysql.NewServerBitmap` + `Set`: bit i of the row is bit `i % 8` of byte `i / 8`) -/
 
